@@ -92,10 +92,34 @@ func match(policyNamespace string, rule *proto.Rule, req *requestCache) bool {
 			"HttpPath":   req.GetHttpPath(),
 		}).Debug("Checking rule on request")
 	}
-	return matchSource(policyNamespace, rule, req) &&
+	return matchIPVersion(rule, req) &&
+		matchSource(policyNamespace, rule, req) &&
 		matchDestination(policyNamespace, rule, req) &&
 		matchRequest(rule, req) &&
 		matchL4Protocol(rule, int32(req.GetProtocol()))
+}
+
+// matchIPVersion checks the rule's optional IP version against the connection: a rule that names an
+// IP version only applies to traffic of that version (as in the kernel dataplanes, which only render
+// such a rule for that version).
+func matchIPVersion(rule *proto.Rule, req *requestCache) bool {
+	var wantV4 bool
+	switch rule.GetIpVersion() {
+	case proto.IPVersion_IPV4:
+		wantV4 = true
+	case proto.IPVersion_IPV6:
+		wantV4 = false
+	default:
+		return true
+	}
+	ip := req.GetDestIP()
+	if ip == nil {
+		ip = req.GetSourceIP()
+	}
+	if ip == nil {
+		return true
+	}
+	return (ip.To4() != nil) == wantV4
 }
 
 // matchSource checks if the source part of the Rule matches the request. It returns true if the
